@@ -114,6 +114,8 @@ impl MultiPeerBackend for XPubSocketBackend {
             },
         )
         .await;
+        #[cfg(feature = "verif-hooks")]
+        crate::__verif::yield_point("reg.after_table").await;
         self.fair_queue_inner
             .lock()
             .insert_conn(peer_id.clone(), conn, recv_queue);
